@@ -28,6 +28,8 @@ THEOREMS = [
     "BeyondVerif.C14.rot_cross",
     "BeyondVerif.C14.rot_norm",
     "BeyondVerif.C14.nonrotating_frames",
+    "BeyondVerif.C14.setter_as_translated",
+    "BeyondVerif.C14.writes_as_modelled",
     # the matrices of the built-in tree (C02's model) and to_local (templates/Local.tpl) meet the hypotheses
     "BeyondVerif.C14.t6Mat_mul",
     "BeyondVerif.C14.t6Mat_mulVec",
@@ -257,7 +259,218 @@ def extract(ctx):
              f"def g50Index : Nat := {names.index('G50')}",
              "end BeyondVerif.Generated"]
     ch = ["Generated/Frames.lean"] if core.write_if_changed(os.path.join(core.LEAN, "BeyondVerif", "Generated", "Frames.lean"), "\n".join(lines) + "\n") else []
-    return ch + instantiate.main()
+    return ch + extract_setters() + instantiate.main()
+
+
+# ---------------------------------------------------------------- the setters, translated from the AST of cov.py / statevector.py
+
+COV_PY = os.path.join(core.REPO, "beyond", "orbits", "cov.py")
+SV_PY = os.path.join(core.REPO, "beyond", "orbits", "statevector.py")
+
+
+class Refuse(RuntimeError):
+    """the source has a shape the translator does not know: the model is not regenerated, the check reports it"""
+
+
+def _method(tree, cls, name, setter=False):
+    for c in tree.body:
+        if isinstance(c, ast.ClassDef) and c.name == cls:
+            for fn in c.body:
+                if isinstance(fn, ast.FunctionDef) and fn.name == name:
+                    decs = [ast.unparse(d) for d in fn.decorator_list]
+                    if setter == (f"{name}.setter" in decs):
+                        return fn
+    raise Refuse(f"{cls}.{name}{' setter' if setter else ''} not found")
+
+
+def _body(fn):
+    """statements of a function without its docstring"""
+    b = list(fn.body)
+    if b and isinstance(b[0], ast.Expr) and isinstance(b[0].value, ast.Constant) and isinstance(b[0].value.value, str):
+        b = b[1:]
+    return b
+
+
+class SetterTranslator:
+    """`Cov.frame` setter -> Lean text of `setFrameGen`.  Grammar accepted (anything else: Refuse):
+        _local = ("TNW", "QSW")
+        if isinstance(frame, str) and frame not in _local: frame = get_frame(frame)
+        if frame == self.frame: return
+        if <X> in LOCAL: v = e  elif <A> != <B>: v = e  else: v = e          (for v = m1 with X = self.frame, v = m2 with X = frame)
+        M = m2 @ m1 ; cov = M @ np.array(self) @ M.T ; self.view(np.ndarray)[:] = cov ; self._data["frame"] = frame
+    expressions: names bound before, `a @ b`, `a.T`, np.array(self), np.identity(6), to_local(<tag>, self.orb),
+    <F>.orientation.convert_to(self.orb.date, <G>.orientation) with F, G among self.frame, self._orb_frame, frame"""
+
+    LOCALS = {"TNW", "QSW"}
+
+    def __init__(self):
+        self.local_name = None
+
+    def is_local_test(self, e):
+        """`<X> in ("TNW", "QSW")` or `<X> in _local` -> source text of X"""
+        if isinstance(e, ast.Compare) and len(e.ops) == 1 and isinstance(e.ops[0], ast.In):
+            c = e.comparators[0]
+            ok = (isinstance(c, ast.Name) and c.id == self.local_name) or \
+                 (isinstance(c, ast.Tuple) and {getattr(x, "value", None) for x in c.elts} == self.LOCALS and len(c.elts) == 2)
+            if ok:
+                return ast.unparse(e.left)
+        return None
+
+    def frame_ref(self, e, env):
+        t = ast.unparse(e)
+        if t in env:
+            return env[t]
+        raise Refuse(f"Cov.frame setter: `{t}` is not a frame the translator knows here")
+
+    def expr(self, e, env, lets):
+        if isinstance(e, ast.Name) and e.id in lets:
+            return e.id
+        if isinstance(e, ast.BinOp) and isinstance(e.op, ast.MatMult):
+            return f"(E.mul {self.expr(e.left, env, lets)} {self.expr(e.right, env, lets)})"
+        if isinstance(e, ast.Attribute) and e.attr == "T":
+            return f"(E.tr {self.expr(e.value, env, lets)})"
+        t = ast.unparse(e)
+        if t == "np.array(self)":
+            return "s.mat"
+        if t == "np.identity(6)":
+            return "E.one"
+        if isinstance(e, ast.Call):
+            f = ast.unparse(e.func)
+            if f == "to_local" and len(e.args) == 2 and not e.keywords and ast.unparse(e.args[1]) == "self.orb":
+                k = ast.unparse(e.args[0]) + ":loc"
+                if k not in env:
+                    raise Refuse(f"Cov.frame setter: to_local({ast.unparse(e.args[0])}, ...) outside the branch where it is QSW/TNW")
+                return f"(E.toLocal {env[k]} s.orb)"
+            if f.endswith(".orientation.convert_to") and len(e.args) == 2 and not e.keywords and ast.unparse(e.args[0]) == "self.orb.date":
+                a = self.frame_ref(e.func.value.value, env)
+                b_ = e.args[1]
+                if not (isinstance(b_, ast.Attribute) and b_.attr == "orientation"):
+                    raise Refuse("Cov.frame setter: convert_to target is not `<frame>.orientation`")
+                return f"(E.conv {a} {self.frame_ref(b_.value, env)})"
+        raise Refuse(f"Cov.frame setter: expression `{t}` is outside the translator's grammar")
+
+    def cond(self, e, env):
+        if isinstance(e, ast.Compare) and len(e.ops) == 1 and isinstance(e.ops[0], ast.NotEq):
+            return f"{self.frame_ref(e.left, env)} ≠ {self.frame_ref(e.comparators[0], env)}"
+        raise Refuse(f"Cov.frame setter: condition `{ast.unparse(e)}` is outside the translator's grammar")
+
+    def branch3(self, st, var, subject, scrut, locvar, framevar, lets):
+        """if subject in LOCAL: var = e1 / elif c: var = e2 / else: var = e3  ->  Lean match on `scrut`"""
+        def single(body):
+            if len(body) != 1 or not isinstance(body[0], ast.Assign) or ast.unparse(body[0].targets[0]) != var:
+                raise Refuse(f"Cov.frame setter: branch of `{var}` is not a single assignment to it")
+            return body[0].value
+        if not isinstance(st, ast.If) or self.is_local_test(st.test) != subject:
+            raise Refuse(f"Cov.frame setter: expected `if {subject} in (\"TNW\", \"QSW\")` defining {var}")
+        if len(st.orelse) != 1 or not isinstance(st.orelse[0], ast.If) or not st.orelse[0].orelse:
+            raise Refuse(f"Cov.frame setter: expected if / elif / else defining {var}")
+        el = st.orelse[0]
+        base = {"self._orb_frame": "s.orbFrame"}
+        e1 = self.expr(single(st.body), dict(base, **{subject + ":loc": locvar}), lets)
+        fenv = dict(base, **{subject: framevar})
+        c2 = self.cond(el.test, fenv)
+        e2 = self.expr(single(el.body), fenv, lets)
+        e3 = self.expr(single(el.orelse), fenv, lets)
+        return (f"    match {scrut} with\n    | .loc {locvar} => {e1}\n    | .frame {framevar} => if {c2} then {e2} else {e3}")
+
+    def translate(self, fn):
+        b = _body(fn)
+        if [a.arg for a in fn.args.args] != ["self", "frame"]:
+            raise Refuse("Cov.frame setter: unexpected signature")
+        i = 0
+        if isinstance(b[i], ast.Assign) and isinstance(b[i].value, ast.Tuple) and {getattr(x, "value", None) for x in b[i].value.elts} == self.LOCALS:
+            self.local_name = ast.unparse(b[i].targets[0])
+            i += 1
+        # resolution of a name
+        st = b[i]
+        if not (isinstance(st, ast.If) and not st.orelse and ast.unparse(st.body[0]) == "frame = get_frame(frame)" and len(st.body) == 1
+                and isinstance(st.test, ast.BoolOp) and isinstance(st.test.op, ast.And) and len(st.test.values) == 2
+                and ast.unparse(st.test.values[0]) == "isinstance(frame, str)"
+                and isinstance(st.test.values[1], ast.Compare) and isinstance(st.test.values[1].ops[0], ast.NotIn)
+                and ast.unparse(st.test.values[1].left) == "frame"):
+            raise Refuse("Cov.frame setter: the resolution `if isinstance(frame, str) and frame not in _local: frame = get_frame(frame)` changed")
+        i += 1
+        st = b[i]
+        if not (isinstance(st, ast.If) and not st.orelse and ast.unparse(st.test) == "frame == self.frame" and len(st.body) == 1
+                and isinstance(st.body[0], ast.Return) and st.body[0].value is None):
+            raise Refuse("Cov.frame setter: the guard `if frame == self.frame: return` changed")
+        i += 1
+        rest = b[i:]
+        if len(rest) != 6:
+            raise Refuse(f"Cov.frame setter: {len(rest)} statements after the guard, 6 expected (m1, m2, M, cov, write values, write label)")
+        m1 = self.branch3(rest[0], "m1", "self.frame", "s.tag", "k", "f", set())
+        m2 = self.branch3(rest[1], "m2", "frame", "t", "k", "g", set())
+        lets = {"m1", "m2"}
+        out = []
+        for st, var in ((rest[2], "M"), (rest[3], "cov")):
+            if not (isinstance(st, ast.Assign) and ast.unparse(st.targets[0]) == var):
+                raise Refuse(f"Cov.frame setter: expected an assignment to {var}")
+            out.append((var, self.expr(st.value, {}, lets)))
+            lets.add(var)
+        if ast.unparse(rest[4]) != "self.view(np.ndarray)[:] = cov":
+            raise Refuse("Cov.frame setter: the values are no longer written with `self.view(np.ndarray)[:] = cov`")
+        if ast.unparse(rest[5]) != "self._data['frame'] = frame":
+            raise Refuse("Cov.frame setter: the label is no longer written with `self._data[\"frame\"] = frame` as last statement")
+        return (m1, m2, out)
+
+
+def effects(fn, on="self"):
+    """attributes / items of `self` a method writes, in order (source text of the assignment targets), calls that are statements"""
+    out = []
+    for st in ast.walk(fn):
+        if isinstance(st, (ast.Assign, ast.AugAssign)):
+            for t in (st.targets if isinstance(st, ast.Assign) else [st.target]):
+                txt = ast.unparse(t)
+                if txt.startswith(on + ".") or txt.startswith(on + "["):
+                    out.append((st.lineno, txt))
+        if isinstance(st, ast.Delete):
+            for t in st.targets:
+                out.append((st.lineno, "del " + ast.unparse(t)))
+    return [t for _, t in sorted(out)]
+
+
+def extract_setters():
+    """Generated/CovSetter.lean: the `Cov.frame` setter translated from the AST, and the order of writes of the methods the
+    model of `sv.cov = c` / `Cov(...)` rests on"""
+    ctree = ast.parse(open(COV_PY).read())
+    stree = ast.parse(open(SV_PY).read())
+    m1, m2, lets = SetterTranslator().translate(_method(ctree, "Cov", "frame", setter=True))
+    new = effects(_method(ctree, "Cov", "__new__"), on="obj")
+    orb = effects(_method(ctree, "Cov", "orb", setter=True))
+    svcov = effects(_method(stree, "StateVector", "cov", setter=True))
+    copy_src = [ast.unparse(x) for x in _body(_method(ctree, "Cov", "copy"))]
+    fin = effects(_method(ctree, "Cov", "__array_finalize__"))
+    q = lambda xs: "[" + ", ".join('"' + x.replace('\\', '\\\\').replace('"', '\\"').replace("\n", "\\n") + '"' for x in xs) + "]"
+    lines = ["import BeyondVerif.Model.Cov",
+             "/- GENERATED by harness/props/C14.py (extract_setters) from the AST of beyond/orbits/cov.py and beyond/orbits/statevector.py - do not edit.",
+             "`setFrameGen` is the `Cov.frame` setter statement by statement (guard, m1, m2, M, cov, the two writes); Props/C14.lean proves it equal to the",
+             "hand-written `Cov.setFrame` the theorems and the driver use (`setter_as_translated`), and pins the write lists (`writes_as_modelled`). -/",
+             "namespace BeyondVerif.Generated.CovSetter",
+             "open BeyondVerif.Cov",
+             "set_option linter.unusedVariables false",
+             "",
+             "/-- `Cov.frame` setter; `t` is the target after `get_frame` resolved a name -/",
+             "def setFrameGen {F Mat Vec : Type} [DecidableEq F] (E : Env F Mat Vec) (s : St F Mat Vec) (t : Tag F) : St F Mat Vec :=",
+             "  if t = s.tag then s else",
+             "  let m1 :=", m1,
+             "  let m2 :=", m2]
+    for var, e in lets:
+        lines.append(f"  let {var} := {e}")
+    lines += ["  { s with mat := cov, tag := t }",
+              "",
+              "/-- attributes `Cov.__new__` sets on the new object, in order -/",
+              f"def newWrites : List String := {q(new)}",
+              "/-- what the `Cov.orb` setter writes (reached by `obj.orb = orb` in `__new__` and by `sv.cov = c`) -/",
+              f"def orbSetterWrites : List String := {q(orb)}",
+              "/-- what the `StateVector.cov` setter writes -/",
+              f"def svCovSetterWrites : List String := {q(svcov)}",
+              "/-- what `Cov.__array_finalize__` writes -/",
+              f"def finalizeWrites : List String := {q(fin)}",
+              "/-- the statements of `Cov.copy` -/",
+              f"def copyBody : List String := {q(copy_src)}",
+              "end BeyondVerif.Generated.CovSetter"]
+    path = os.path.join(core.LEAN, "BeyondVerif", "Generated", "CovSetter.lean")
+    return ["Generated/CovSetter.lean"] if core.write_if_changed(path, "\n".join(lines) + "\n") else []
 
 
 # ---------------------------------------------------------------- generators
@@ -1438,7 +1651,7 @@ def check_attached(out, scen):
               state_frame="home" if g == f0 else "reframed")
     cur = tagname(sv.cov)
     if not mclose(np.array(sv.cov), expected(cur), tscale(expected(cur))):
-        out.fail(attached_family(scen, cur) + ":at-attach", "sv.cov = c changed the values of the covariance", scen, observed=np.array(sv.cov).tolist(), expected=expected(cur).tolist())
+        out.fail(attached_family(scen, cur) + ":at-attach", f"after the frame changes {scen['pre']} and sv.cov = c the covariance (labelled {cur}) is not R C R^T for that frame", scen, observed=np.array(sv.cov).tolist(), expected=expected(cur).tolist())
         return
     for n, (kind, t) in enumerate(scen["post"]):
         before = tagname(sv.cov)
